@@ -130,10 +130,10 @@ def run (ansiMode : Bool) (fields : List String) : String × String :=
     let plainOfColoured := stripAnsi out
     match specRender c with
     | none => (mo, "SKIP display could not be laid out")
-    | some (exp, well) =>
+    | some (exp, _well) =>
       let expCodes := exp.toList.map (·.toNat)
       let p1 := if plainOfColoured == expCodes then [] else
-        [(if well then "C16: " else "C16: F10-multi-line-riser ") ++ "rendered rows differ from the specified layout: got " ++
+        ["C16: " ++ "rendered rows differ from the specified layout: got " ++
           encode (String.ofList (plainOfColoured.map Char.ofNat)) ++ " expected " ++ encode exp]
       let p2 := if ownedSame then [] else ["C16: an owned copy of the error renders differently"]
       let p3 := if !ansiMode then [] else
